@@ -333,14 +333,18 @@ def native_samples(reg, rnd, n):
                # line/paragraph separator, carriage return): main.cpp is the returned source verbatim
                "from Reduino.Communication import SerialMonitor\nmon = SerialMonitor(9600)\nmon.write('page one\x0cpage two')\nmon.write('a\x0bb\x1cc\x85d\u2028e\u2029f')\n",
                "from Reduino.Communication import SerialMonitor\nmon = SerialMonitor(9600)\nmon.write('cr\\rlf')\nmon.write('tab\\there')\n"]
-    for i in range(max(n, 40)):
+    for i in range(max(n, 48)):
         plat, board = rnd.choice(pairs)
+        # every script is used (round-robin), and every script at least once with a registered pair and nothing failing
+        clean_run = (i // len(scripts)) % 2 == 0
+        if clean_run:
+            plat, board = pairs[(i // len(scripts) // 2) % 2]
         jobs.append({"id": f"t{i}", "file": INIT, "unit": "target",
-                     "params": {"port": rnd.choice(["COM3", "/dev/ttyUSB0"]), "upload": rnd.random() < 0.6,
+                     "params": {"port": ["COM3", "/dev/ttyUSB0"][i % 2], "upload": (i % 3 != 0) if clean_run else rnd.random() < 0.6,
                                 "platform": plat, "board": board}, "self": None,
-                     "ghost": {"fail_version": rnd.random() < 0.3, "fail_build": rnd.random() < 0.3,
-                               "fail_upload": rnd.random() < 0.3, "parse_fails": rnd.random() < 0.15,
-                               "emit_fails": rnd.random() < 0.15, "main_text": rnd.choice(scripts), "E": []}})
+                     "ghost": {"fail_version": (not clean_run) and rnd.random() < 0.3, "fail_build": (not clean_run) and rnd.random() < 0.3,
+                               "fail_upload": (not clean_run) and rnd.random() < 0.3, "parse_fails": (not clean_run) and rnd.random() < 0.15,
+                               "emit_fails": (not clean_run) and rnd.random() < 0.15, "main_text": scripts[i % len(scripts)], "E": []}})
     for i in range(6):
         jobs.append({"id": f"c{i}", "file": PIO, "unit": "compile_upload", "params": {"project_dir": "/tmp/x"}, "self": None,
                      "ghost": {"fail_build": bool(i & 1), "fail_upload": bool(i & 2), "E": []}})
